@@ -43,6 +43,9 @@ structure M6 where
   data : List (Nat × Nat) := []
   /-- keys some routine of which returned an error since the key was created / reset -/
   sus : List Nat := []
+  /-- the root context was cancelled while installed: instances fail without any `cbout` line (cancelled before
+  they entered, or started with the cancelled context), so every key is a suspect from then on -/
+  susAll : Bool := false
   /-- run id ↦ key -/
   runKey : List Nat := []
   live : List (Option Nat) := []
@@ -73,7 +76,7 @@ def M6.dismiss (m : M6) (k : Nat) : M6 :=
   match m.st k with
   | .present =>
     if !m.delay then m.setSt k .absent
-    else if m.sus.contains k then m.setSt k (.unknown m.epoch)
+    else if m.susAll || m.sus.contains k then m.setSt k (.unknown m.epoch)
     else m.setSt k (.leaving m.epoch)
   | _ => m
 
@@ -102,9 +105,9 @@ def M6.refsIn (m : M6) (inSet : Nat → Bool) : Bool :=
 /-- what is still known after a call that overlapped another one returned: the reference table; the
 keys it may have touched are unknown -/
 def M6.weakRet (m : M6) : Op → Res → M6
-  | .setKey k _, _ | .removeKey k, _ | .resetRoutine k, _ => m.setSt k .any
+  | .setKey k _, _ | .removeKey k, _ | .resetRoutine k _, _ => m.setSt k .any
   | .syncKeys ks _, _ => (ks ++ m.known).foldl (fun m k => m.setSt k .any) m
-  | .resetAll, _ => m
+  | .resetAll _, _ => m
   | .setContext c _, _ => { m with hasCtx := c.isSome }
   | .addKeyRef k, .ref r _ _ =>
     { m.setSt k .any with live := setAt m.live r (some k), liveDef := setAt m.liveDef r (some k) }
@@ -142,20 +145,30 @@ def M6.ret (m : M6) : Op → Res → Option M6
     if !m.refsIn ks.contains then none
     let m ← obsAll m (ks ++ m.known).eraseDups ks.contains
     if kd.all fun p => p.2 == m.dataOf p.1 then pure m else none
-  | .resetRoutine k, .existedReset e r => do
+  | .resetRoutine k cs, .existedReset e r => do
     let m ← m.observe k e
-    if r != e || m.ctors.contains k != e then none
-    else pure (if e then { m.setSt k .present with sus := m.sus.filter (· != k) } else m)
-  | .restartRoutine k, .existedReset e r => do
+    -- the constructor line of a reset comes before the ret line: the data the conditions saw is one less
+    let prior := if m.ctors.contains k then m.dataOf k - 1 else m.dataOf k
+    if r != (e && condsMatch cs k prior) || m.ctors.contains k != r then none
+    else pure (if r then { m.setSt k .present with sus := m.sus.filter (· != k) } else m)
+  | .restartRoutine k cs, .existedReset e r => do
     let m ← m.observe k e
-    if r == (e && m.hasCtx) then pure m else none
-  | .resetAll, .counts n t => do
+    if r == (e && m.hasCtx && condsMatch cs k (m.dataOf k)) then pure m else none
+  | .resetAll cds, .counts n t => do
     let cs := m.ctors
-    let m ← obsAll m (cs ++ m.known).eraseDups cs.contains
-    if n == cs.length && t == cs.length then
-      pure (cs.foldl (fun m k => { m.setSt k .present with sus := m.sus.filter (· != k) }) m)
-    else none
-  | .restartAll, .counts n t =>
+    if cds.isEmpty then
+      let m ← obsAll m (cs ++ m.known).eraseDups cs.contains
+      if n == cs.length && t == cs.length then
+        pure (cs.foldl (fun m k => { m.setSt k .present with sus := m.sus.filter (· != k) }) m)
+      else none
+    else
+      -- with condition functions: exactly the keys whose constructor ran were reset (and were in the set)
+      let m ← cs.foldlM (fun m k => m.observe k true) m
+      if n == cs.length && n ≤ t && cs.all (fun k => condsMatch cds k (m.dataOf k - 1)) then
+        pure (cs.foldl (fun m k => { m.setSt k .present with sus := m.sus.filter (· != k) }) m)
+      else none
+  | .restartAll cds, .counts n t =>
+    if !cds.isEmpty then (if n ≤ t && (m.hasCtx || n == 0) then some m else none) else
     let definite := (m.known.filter fun k => match m.st k with
       | .present | .leaving _ => true
       | _ => false).length
@@ -225,6 +238,8 @@ def monC06 : ObsMonitor Obs M6 where
                       | _ => p }
     | .probe _ _ => some m
     | .nilnext _ => some m
+    -- `RestartRoutine` & co. treat a cancelled root context as none
+    | .cancelroot => some { m with hasCtx := false, susAll := true }
 
 /-! ## C07 -/
 
@@ -306,10 +321,10 @@ def M7.unleave (m : M7) (k : Nat) : M7 := { m with leavingK := m.leavingK.filter
 def M7.inv (m : M7) : Op → M7
   | .setKey k st => if st then (m.touch k).unleave k else m.unleave k
   | .syncKeys ks restart => if restart then ks.foldl (fun m k => (m.touch k).unleave k) m else ks.foldl (fun m k => m.unleave k) m
-  | .resetRoutine k => (m.touch k).unleave k
-  | .restartRoutine k => m.touch k
-  | .resetAll => { m.touchAll with leavingK := [] }
-  | .restartAll => m.touchAll
+  | .resetRoutine k _ => (m.touch k).unleave k
+  | .restartRoutine k _ => m.touch k
+  | .resetAll _ => { m.touchAll with leavingK := [] }
+  | .restartAll _ => m.touchAll
   | .setContext _ _ => m.touchAll
   | .addKeyRef k => (m.touch k).unleave k
   | .removeKey k | .rcRemoveKey k => m.unowe k
@@ -367,8 +382,8 @@ def monC07 : ObsMonitor Obs M7 where
       else some { m with pending := m.pending.map (fun p => (p.1, p.2.1, true)) ++ [(id, op, true)] }
     | .ctor k d =>
       if m.pending.any (fun p => match p.2.1 with
-          | .resetRoutine k' => k' == k
-          | .resetAll => true
+          | .resetRoutine k' _ => k' == k
+          | .resetAll _ => true
           | _ => false) then
         some { m with fails := alSet m.fails k 0, born := alSet m.born k m.epoch }
       else
@@ -423,6 +438,12 @@ def monC07 : ObsMonitor Obs M7 where
       | none => none
     | .advance => some { m with epoch := m.epoch + 1, advanced := true }
     | .nilnext _ => some m
+    | .cancelroot =>
+      -- every routine's context is cancelled; instances started with the cancelled context fail without
+      -- entering their function, which the monitor cannot count: no retry is demanded any more, and nothing
+      -- is concluded from "no context" (a cancelled context that is still installed starts routines)
+      some { m with hasCtx := false, retry := none, cleared := none, owed := []
+                    runs := m.runs.map fun r => if r.running then { r with mustCancel := true } else r }
     | .quiesce =>
       -- the keys that were removed with a delay and not requested again are gone now
       let m := (m.leavingK.filter (·.2 < m.epoch)).foldl (fun m p => m.kill p.1) m
@@ -530,6 +551,24 @@ def M6o.request (m : M6o) (k d : Nat) (e : Bool) : Option M6o :=
     if cntOk c d then some { m with st := updF m.st k .present, cnt := updF m.cnt k (some d), known := k :: m.known }
     else none
 
+/-- do the condition functions accept key `k` (in the set), when the monitor knows its data -/
+def expMatch (m : M6o) (cs : List Cond) (k : Nat) : Option Bool :=
+  if cs.isEmpty then some true else (m.cnt k).map fun n => condsMatch cs k n
+
+def chkMatch (o : Option Bool) (r e : Bool) : Bool :=
+  match o with
+  | some b => r == (e && b)
+  | none => true
+
+def chkMatch2 (h o : Option Bool) (r e : Bool) : Bool :=
+  match h, o with
+  | some c, some b => r == (e && c && b)
+  | _, _ => true
+
+/-- the constructor count of a key in the set after `ResetAllRoutines(conds…)` -/
+def cntReset (cs : List Cond) (k : Nat) (c : Option Nat) : Option Nat :=
+  c.map fun n => if condsMatch cs k n then n + 1 else n
+
 /-- the rule of a call that overlapped no other call, applied when its results are known -/
 def M6o.ret (m : M6o) : Op → Res → Option M6o
   | .setKey k _, .dataExisted d e => m.request k d e
@@ -573,37 +612,37 @@ def M6o.ret (m : M6o) : Op → Res → Option M6o
                          | none => m.cnt k
                        known := ks ++ m.known }
     else none
-  | .resetRoutine k, .existedReset e r =>
+  | .resetRoutine k cs, .existedReset e r =>
     match (m.st k).obs e with
     | none => none
     | some x =>
-      if r == e then
-        some { m with st := updF m.st k (if e then .present else x)
-                      cnt := if e then updF m.cnt k ((m.cnt k).map (· + 1)) else m.cnt, known := k :: m.known }
+      -- `r` tells whether the key was reset; it is checked against the conditions when the data is known
+      if (!r || e) && chkMatch (expMatch m cs k) r e then
+        some { m with st := updF m.st k (if r then .present else x)
+                      cnt := if r then updF m.cnt k ((m.cnt k).map (· + 1)) else m.cnt, known := k :: m.known }
       else none
-  | .restartRoutine k, .existedReset e r =>
+  | .restartRoutine k cs, .existedReset e r =>
     match (m.st k).obs e with
     | none => none
-    | some x => if (match m.hasCtx with
-          | some c => r == (e && c)
-          | none => true) then some { m with st := updF m.st k x, known := k :: m.known } else none
-  | .resetAll, .counts n t =>
-    if n == t && ((dedup m.known).filter fun k => m.st k == .present).length ≤ t then
+    | some x => if (!r || e) && chkMatch2 m.hasCtx (expMatch m cs k) r e
+        then some { m with st := updF m.st k x, known := k :: m.known } else none
+  | .resetAll cs, .counts n t =>
+    if (if cs.isEmpty then n == t else decide (n ≤ t)) && ((dedup m.known).filter fun k => m.st k == .present).length ≤ t then
       some { m with st := fun k => match m.st k with
                       | .absent => .absent
                       | .present => .present
                       | _ => .any
                     cnt := fun k => match m.st k with
                       | .absent => m.cnt k
-                      | .present => (m.cnt k).map (· + 1)
+                      | .present => cntReset cs k (m.cnt k)
                       | _ => none }
     else none
-  | .restartAll, .counts n t =>
+  | .restartAll cs, .counts n t =>
     if (match m.hasCtx with
-        | some c => n == (if c then t else 0)
+        | some c => if c then (if cs.isEmpty then n == t else decide (n ≤ t)) else n == 0
         | none => true) && ((dedup m.known).filter fun k => m.st k == .present).length ≤ t
     then some m else none
-  | .setContext c _, .unit => some { m with hasCtx := some c.isSome }
+  | .setContext c _, .unit => some { m with hasCtx := some (isLive c) }
   | .addKeyRef k, .ref r d e =>
     (m.request k d e).map fun m =>
       { m with liveDef := setAt m.liveDef r (some k), refKey := setAt m.refKey r (some k) }
@@ -644,6 +683,9 @@ def monC06o : ObsMonitor Obs M6o where
         else (m.ret op res).map fun m => { m with pending := rest }
       | none => none
     | .advance => some { m with epoch := m.epoch + 1 }
+    -- the installed root context is cancelled: it counts as no context for the calls that look (`SyncKeys`,
+    -- `ResetRoutine`, `RestartRoutine`), and as a context for those that do not: unknown
+    | .cancelroot => some { m with hasCtx := none }
     | .quiesce =>
       -- every callback of a removal timer that has fired has run
       some { m with st := fun k => match m.st k with
